@@ -91,12 +91,12 @@ def plan(tier, seed):
     for ns, parts, take in (("vfgen.beta", 4, 4), ("vfgen.alpha", 12 if q else 8, 3 if q else 8), ("vfgen.gamma", 12 if q else 8, 3 if q else 8)):
         for p in range(take):
             # (quick: each rich namespace is read back under one other hash seed per shard, alternating 2 / 3)
-            shards.append({"kind": "faults", "ns": ns, "part": p, "parts": parts, "trunc_samples": (10 if ns == "vfgen.beta" else 4) if q else 300,
-                           "readers": ([2, 3] if ns == "vfgen.beta" else [2 + p % 2]) if q else [2, 3, 4, 5, 6, 7]})
+            shards.append({"kind": "faults", "ns": ns, "part": p, "parts": parts, "trunc_samples": (10 if ns == "vfgen.beta" else 4) if q else (160 if ns == "vfgen.beta" else 40),
+                           "readers": ([2, 3] if ns == "vfgen.beta" else [2 + p % 2]) if q else ([2, 3, 4, 5, 6, 7] if ns == "vfgen.beta" else [2 + p % 3, 5 + p % 3])})
     bundled = ["basilisp.string", "basilisp.set", "basilisp.walk"] if q else ["basilisp.string", "basilisp.set", "basilisp.walk", "basilisp.edn", "basilisp.json", "basilisp.data", "basilisp.pprint"]
     for i, nsname in enumerate(bundled):
         # one shard per bundled namespace; quick runs a third of the fault list each (rotating), thorough all of it
-        shards.append({"kind": "bundled", "namespaces": [nsname], "trunc_samples": 3 if q else 60, "readers": [2] if q else [2, 3, 4, 5], "parts": 3 if q else 1, "part": i % 3 if q else 0})
+        shards.append({"kind": "bundled", "namespaces": [nsname], "trunc_samples": 3 if q else 12, "readers": [2] if q else [2 + i % 2, 4 + i % 2], "parts": 3 if q else 2, "part": i % 3 if q else i % 2})
     for i in range(2 if q else 6):
         shards.append({"kind": "decode", "part": i, "parts": 2 if q else 6, "max_offsets": 4000 if q else 400000})
     return {
